@@ -71,6 +71,7 @@ type goexitUnwind struct{}
 
 func (st *State) schedOn(preemptions int) {
 	if st.sch.on {
+		st.sch.preemptLeft = preemptions // a later call sets a new budget for what follows
 		return
 	}
 	st.sch.on = true
